@@ -110,6 +110,7 @@ def main():
     args = sys.argv[1:]
     props, kinds, out_json, repo, jobs = None, {"seeded", "mutants", "refactors"}, None, "/repo", 8
     all_props = False
+    match = None
     i = 0
     while i < len(args):
         if args[i] == "--props":
@@ -126,11 +127,16 @@ def main():
             repo = args[i]
         elif args[i] == "--all-props":
             all_props = True
+        elif args[i] == "--match":
+            i += 1
+            match = args[i]
         elif args[i] == "-j":
             i += 1
             jobs = int(args[i])
         i += 1
     fxs = fixtures(kinds, props)
+    if match:
+        fxs = [f for f in fxs if re.search(match, f["id"])]
     if all_props:
         fxs = [dict(f, all_props=True) for f in fxs if f["kind"] == "refactors"]
     # build the analyser once, before the parallel runs
